@@ -339,6 +339,8 @@ func parseInto
          forall k int { wf_chars(trimspace(input), k) } }
   // value xor error
   ensures result != nil ==> *out == old(*out)
+  // the error is one made here, never one of the package-level sentinel values (such as io.EOF)
+  ensures result != nil ==> !sentinel(result)
   modifies *out
 
 func Parse
@@ -346,6 +348,7 @@ func Parse
   ensures result1 == nil ==> okver(result0) && wellformed(trimspace(input))
   ensures wellformed(trimspace(input)) ==> result1 == nil
   ensures result1 != nil ==> result0.Epoch == 0 && result0.Version == "" && result0.Revision == ""
+  ensures result1 != nil ==> !sentinel(result1)
 
 func (*Version).UnmarshalControl
   requires version != nil
